@@ -164,8 +164,12 @@ func (tbl *Table) optimize(mode Mode, req Require) (Cost, Cost, any) {
 		return tbl.costFor(tbl.indexes[0], mode, req)
 	}
 	best := newBest[[]string]()
-	for _, idx := range tbl.indexes {
-		if req.SatisfiedBy(idx) {
+	for i, idx := range tbl.indexes {
+		cols := idx
+		if req.use == ReqUnique {
+			cols = tbl.lookupCols(i)
+		}
+		if req.SatisfiedBy(cols) {
 			f, v, _ := tbl.costFor(idx, mode, req)
 			best.update(f, v, idx)
 		}
@@ -220,6 +224,19 @@ func (tbl *Table) indexi(index []string) int {
 	i := slc.IndexFn(tbl.indexes, index, slices.Equal)
 	assert.That(i >= 0)
 	return i
+}
+
+// lookupCols returns the columns that Lookup needs for an index.
+// For a unique index this includes the BestKey (Fields2)
+// which is part of the key when the index fields are all empty.
+func (tbl *Table) lookupCols(i int) []string {
+	if tbl.schema != nil { // nil in tests
+		ix := &tbl.schema.Indexes[i]
+		if len(ix.Ixspec.Fields2) > 0 {
+			return set.Union(ix.Fields, ix.BestKey)
+		}
+	}
+	return tbl.indexes[i]
 }
 
 func (tbl *Table) lookupCost(idx []string) Cost {
